@@ -330,7 +330,7 @@ def run_case(desc):
                         continue
                     if pid in clo and op[0] != "TopReset":
                         want = ("v", b.fresh(pid, target))
-                        if after_t[pid] != want and not (op[0] == "Elem" and op[2][0] == "EWithout" and after_t == before):
+                        if after_t[pid] != want:
                             out["py"].append((step, f"stale: {b.names[pid]} reads {after_t[pid]} after the change, getter on the current state gives {want}"))
                     elif pid not in clo and after_t[pid] != before[pid]:
                         out["py"].append((step, f"unrelated {b.names[pid]} changed from {before[pid]} to {after_t[pid]}"))
